@@ -8,8 +8,8 @@ if TYPE_CHECKING:  # pragma: no cover
 
 
 def prepare_text_for_dbml(text: str) -> str:
-    '''Escape single quotes'''
-    pattern = re.compile(r"('''|')")
+    '''Escape backslashes and single quotes'''
+    pattern = re.compile(r"(\\|'''|')")
     return pattern.sub(r'\\\1', text)
 
 
